@@ -13,6 +13,10 @@ CLAIMS = {
   text="Lean 4 theorems for every history of add / status / pickup (any batch size, any number of recipients) and any fault: the handlers as written refine the queue Spec (C15_model_refines_spec); delivered ++ held = accepted (C15_conservation) hence FIFO, exactly-once and no loss under any failure; count = |held|; failed pickup is a no-op. Tie: correspondence of the real messagepickup service (fault-injecting store and outbound) with the compiled Lean model incl. the stored inbox document",
   note="trusted: Lean kernel; allowed axioms; harness fault injection and mock outbound; handlers driven synchronously through a verif-tagged export; JSON encoding of the inbox modelled as (list, count)",
   technique="Lean 4 invariant/refinement proof + fault-injecting correspondence"),
+ "C14": dict(
+  text="Lean 4 theorems: for routing-key chains of every length, unwrapping by the mediators in order hands exactly the packed original to the recipient key and each mediator reads only the previous key and an envelope packed for that key (nest_snoc, C14_view, C14_unwrap); nobody holding none of the recipient keys - any coalition of all mediators - can obtain the application message from what is sent (C14_opaque, with C14_recipient_reads as non-vacuity); for every history of keylist updates / forwards / pickups from any number of clients the route table maps a key to its most recent registrant (C14_route_table), a forward goes to, or is held for, exactly that client (C14_forward_registered, C14_held_there, C14_held_only_there) and an unregistered key is refused without effect (C14_forward_unregistered). Tie: correspondence of the real outbound dispatcher + packagers (own KMS per agent) + real mediator and messagepickup services per hop, over five media-type profiles, all key types, chains 0..6, with the compiled term-level model and the closed-form contract",
+  note="trusted: Lean kernel; allowed axioms; symbolic encryption (C01/C02 carry the cryptographic half); recording bus; handlers driven synchronously through verif hooks; route table modelled as written (last writer wins, remove unimplemented - design remarks, not counted as violations)",
+  technique="Lean 4 induction over chain length and route histories + multi-agent correspondence"),
  "C19": dict(
   text="Lean 4 theorems: for every history over any number of profiles and every token ever issued (own, foreign, closed, expired, garbage) the wallet code as written answers exactly as the token-capability Spec (C19_model_refines_spec, with the owner-check/session-cache/store-cache model and the invariants token-unique, session=>store-cached); at Spec level: refused <=> token not a live token of that very profile (C19_auth), refused operations change nothing (C19_failed_noop), no operation on wallet w touches contents of q != w (C19_isolation), reads return own content only. Tie: correspondence of real wallet.Wallet over one shared provider (multi-profile histories incl. real expiry) with the compiled model",
   note="trusted: Lean kernel; allowed axioms; gcache expiry driven by the real clock (150 ms / 420 ms sleep); harness provider whose stores survive Close; Metadata stands for all content types; DidComm wrapper methods not driven",
